@@ -101,7 +101,9 @@ theorem save_extends (P : Params V) (L : Layout) (d : Doc V) : Extends d.st (sav
         · intro x hx; simp only [List.mem_singleton] at hx; subst hx; simp only; omega
         · simp only [commit]; omega
         · simp only [commit]; exact p4
-      split <;> exact hcommit
+      split
+      · split <;> exact hcommit
+      all_goals exact hcommit
   | err => exact hroll _
   | panic => exact hroll _
   | oof => exact hroll _
